@@ -46,6 +46,7 @@ def gen_c20(tier, rng):
                             if cat == "lv":
                                 out.append(case("iter", "ep", kind, cat, "0", vl(xs)))
                                 out.append(case("iter", "ek", kind, cat, "0", vl(xs)))
+                                out.append(case("iter", "ec", kind, cat, "0", vl(xs)))
                         if ad == "r" and kind not in ("carr", "il") and cat == "rv":
                             out.append(case("iter", "rm", kind, cat, "0", vl(xs)))
     return out
